@@ -62,8 +62,11 @@ From TeosModel Require Wire WireApi WireApiProofs.
 
 (* "A receipt is issued only for an appointment the tower has stored, responded to, or - when its dispute was
    already confirmed - dropped because the blob did not decrypt or the node refused the penalty": for every
-   state, request and node script (no invariant needed). *)
+   request and node script, in every state in which every user the gatekeeper's memory holds has its row in the
+   table (user_row_ok, Tower.v; true of every reachable state: TowerInv.inv_user_rows).  Needed since the race
+   repairs: a request of a user whose row has vanished is refused after the charge instead of aborting. *)
 Theorem C08_receipt_only_if_taken_on le t sc signer loc b delay sig t' st sg sl e :
+  (forall u, user_row_ok t u) ->
   step le t (OAdd signer loc b delay sig) sc = (t', OAddRes (AddOk st sg sl e)) ->
   exists u, signer = Some u /\ taken_on sc t t' u loc b delay sig.
 Proof. exact (receipt_only_if_taken_on le t sc signer loc b delay sig t' st sg sl e). Qed.
